@@ -26,6 +26,14 @@ structure E2ESpec where
   stream : Bool := true
   seq : Option Nat := none
 
+/-- the exporter model as the `exp` engine drives it: the exporting process, the mode it was created in
+    (`exp new <dom> json`), and the outcome the in-memory connection was told to give to its next Write
+    (`exp failnext <kind>`; `none` = nothing pending, every Write succeeds) -/
+structure ExpDrv where
+  st : ExpState := {}
+  json : Bool := false
+  failNext : Option WriteOutcome := none
+
 structure DState where
   coll : CState := {}
   mode : Mode := .strict
@@ -33,7 +41,7 @@ structure DState where
   spec : CState := {}
   specMode : Mode := .strict
   bld : Option SetB := none
-  exp : ExpState := {}
+  exp : ExpDrv := {}
   specExp : ExpSpec.Tracker := {}
   /-- templatesMap[id].elements of the exporter model (Life.recordTemplates), for `exp refresh` -/
   expTpls : List (Nat × List IE) := []
